@@ -656,7 +656,7 @@ class ChmSel(Selection):
             return ChmSel(chm)
 
     def check(self) -> bool:
-        return self.c.has_value()
+        return _skip_index_levels(self.c).has_value()
 
     def get_subselection(self, addr: StaticAddressComponent) -> Selection:
         submap = self.c.get_inner_map(addr)
@@ -666,6 +666,13 @@ class ChmSel(Selection):
 ###############
 # Choice maps #
 ###############
+
+
+def _skip_index_levels(chm: "ChoiceMap") -> "ChoiceMap":
+    """Index levels are transparent to selections: look through them."""
+    while isinstance(chm, Indexed):
+        chm = chm.c
+    return chm
 
 
 @dataclass(frozen=True)
@@ -1500,7 +1507,8 @@ class Indexed(ChoiceMap):
 
     def get_inner_map(self, addr: AddressComponent) -> ChoiceMap:
         if isinstance(addr, StaticAddressComponent):
-            return ChoiceMap.empty()
+            # index levels are transparent to static addressing: descend, keeping the index level
+            return Indexed.build(self.c.get_inner_map(addr), self.addr)
 
         else:
             if not isinstance(addr, slice):
